@@ -46,6 +46,17 @@ def norm_tok(tok):
     return [0, 0] if tok[1] == 0 else list(tok)
 
 
+def hx(s):
+    return s.encode().hex() if s else '-'
+
+
+def unhx(h):
+    return '' if h == '-' else bytes.fromhex(h).decode()
+
+
+SPECIAL = '#?;'
+
+
 def comps(p):
     return [c for c in p.split('/') if c]
 
@@ -285,6 +296,40 @@ def make_gated_fs(LocalAsyncFS, pool, gate0, rec, fault=lambda kind: None):
     return GatedLocalFS(thread_pool=pool)
 
 
+K_SRC = 'C22:source-path-contains-#?;:url_basename-cuts-the-name'
+K_DEST = 'C22:destination-path-contains-#?;:url_join-misplaces-the-files'
+
+WIDE_NAMES = ['report#1.txt', 'report', 'query?x=1', 'query', 'part;v2', 'part', 'a%20b', 'a b', 'x&y=z', 'p+q', 'c,d', 'k:v', 'u@h', 'wow!',
+              '$var', "it's", '(paren)', 'star*', '[brk]', '.hidden', '-dash', '\u00e9t\u00e9', 'a%2Fb', 'semi;', '100%', 'r#', 'q?', 'tab#?;x',
+              'report#2.txt', 'x=1']
+
+
+def rename_path(p, m):
+    return '/'.join(m.get(c, c) for c in p.split('/'))
+
+
+def rename_case(c, m):
+    c2 = json.loads(json.dumps(c))
+    c2['files'] = {rename_path(p, m): t for p, t in c['files'].items()}
+    c2['dirs'] = [rename_path(d, m) for d in c['dirs']]
+    for x in c2['xfers']:
+        x['dest'] = rename_path(x['dest'], m)
+        x['src'] = rename_path(x['src'], m) if isinstance(x['src'], str) else [rename_path(q, m) for q in x['src']]
+    return c2
+
+
+def xfer_strings(c):
+    srcs, dests = [], []
+    for x in c['xfers']:
+        dests.append(x['dest'])
+        srcs += [x['src']] if isinstance(x['src'], str) else list(x['src'])
+    return srcs, dests
+
+
+def has_special(s):
+    return any(ch in s for ch in SPECIAL)
+
+
 class C22(Prop):
     id = 'C22'
     title = 'Copy tool reproduces sources exactly'
@@ -511,11 +556,51 @@ class C22(Prop):
                 continue
             c = self._random_copy_case(rng)
             if self._usable(c):
+                c = self._widen_names(rng, c)
+                if not self._usable(c):
+                    continue
                 made += 1
                 yield self._with_faults(rng, c)
 
     def extra_coverage(self):
         return {'transient_faults': dict(self.fault_stats)}
+
+    def _widen_names(self, rng, c):
+        """rename path components to names from a wide alphabet (# ? ; % & = + space , : @ ! $ ' ( ) * [ ] %20 non-ASCII, leading dot /
+        dash, names that are prefixes of each other up to such a character) and sometimes address everything by file:// URLs.
+        '#', '?' and ';' inside the *source or destination strings of a transfer* trigger two known defects of the unchanged code
+        (url_basename / url_join): at most one of the two per case, and then only with one transfer and one source."""
+        if rng.random() < 0.45:
+            return c
+        names = sorted({comp for p in list(c['files']) + list(c['dirs']) for comp in p.split('/')} |
+                       {comp for q in sum(xfer_strings(c), []) for comp in q.split('/') if comp})
+        names = [n for n in names if n not in ('s', 'd', 'e', '')]
+        srcs, dests = xfer_strings(c)
+        in_src = {comp for q in srcs for comp in q.split('/')}
+        in_dest = {comp for q in dests for comp in q.split('/')}
+        simple = len(c['xfers']) == 1 and isinstance(c['xfers'][0]['src'], str)
+        mode = rng.choice(['none', 'none', 'none', 'src', 'dest']) if simple else 'none'
+        pool = list(WIDE_NAMES)
+        rng.shuffle(pool)
+        m = {}
+        for n in names:
+            if rng.random() < 0.6 and pool:
+                cand = pool.pop()
+                forbid = (n in in_src and mode != 'src') or (n in in_dest and mode != 'dest')
+                if has_special(cand) and forbid:
+                    cand = cand.replace('#', '%23').replace('?', '+').replace(';', ',')
+                if cand not in m.values() and cand not in names:
+                    m[n] = cand
+        c2 = rename_case(c, m)
+        for x in c2['xfers']:
+            if has_special(x['dest']):
+                # with a trailing slash the misplaced suffix ends in '/': AssertionError / EISDIR depending on the file size (same defect)
+                x['dest'] = x['dest'].rstrip('/')
+        if rng.random() < 0.25:
+            pre = rng.choice(['file://', 'file://localhost'])
+            for x in c2['xfers']:
+                x['url'] = pre
+        return c2
 
     def _with_faults(self, rng, c):
         if rng.random() < 0.45:
@@ -533,11 +618,15 @@ class C22(Prop):
     def model_lines(self, c):
         if c['kind'] == 'plan':
             return [f"plan {c['size']} {c['part']} {c['buf']}"]
-        ws = ['copy', 'T'] + [f'{p}={t[0]}.{t[1]}' for p, t in sorted(c['files'].items())]
-        ws += ['D'] + list(c['dirs'])
+        # names may contain any character but '/': everything travels as hex of UTF-8; a location is the string the tool is given,
+        # relative to the scratch root ('/s/a#1', 'file:///d/', 'file://localhost/d/x')
+        ws = ['copy', 'T'] + [f'{hx(p)}={t[0]}.{t[1]}' for p, t in sorted(c['files'].items())]
+        ws += ['D'] + [hx(d) for d in c['dirs']]
         for x in c['xfers']:
             single = isinstance(x['src'], str)
-            ws += ['X', x['mode'], 's' if single else 'l', x['dest']] + ([x['src']] if single else list(x['src']))
+            pre = x.get('url', '')
+            ws += ['X', x['mode'], 's' if single else 'l', hx(pre + '/' + x['dest'])]
+            ws += [hx(pre + '/' + s_) for s_ in ([x['src']] if single else list(x['src']))]
         return [' '.join(ws)]
 
     # ------------------------------------------------------------------------------------------ real side
@@ -600,10 +689,11 @@ class C22(Prop):
             router = rfs.RouterAsyncFS(local_kwargs={'thread_pool': InlineExecutor()})
             router._local_fs = make_gated_fs(lfs.LocalAsyncFS, InlineExecutor(), gate, rec, fault)
 
-            def absolute(p):
-                return os.path.join(scratch, p.rstrip('/')) + ('/' if p.endswith('/') else '')
-            transfers = [copier.Transfer(absolute(x['src']) if isinstance(x['src'], str) else [absolute(s) for s in x['src']],
-                                         absolute(x['dest']), treat_dest_as=x['mode']) for x in xfers]
+            def absolute(p, pre=''):
+                return pre + scratch + '/' + p           # plain local path, or a file://[localhost] URL of it
+            transfers = [copier.Transfer(absolute(x['src'], x.get('url', '')) if isinstance(x['src'], str)
+                                         else [absolute(s, x.get('url', '')) for s in x['src']],
+                                         absolute(x['dest'], x.get('url', '')), treat_dest_as=x['mode']) for x in xfers]
 
             async def main():
                 sema = asyncio.Semaphore(50)
@@ -680,14 +770,14 @@ class C22(Prop):
     @staticmethod
     def _fmt_tree(tree):
         items = []
-        for p in sorted(tree):
+        for p in sorted(tree, key=hx):
             v = tree[p]
             if v == 'DIR':
-                items.append(p + '/')
+                items.append(hx(p) + '/')
             elif v[0] == '?':
-                items.append(f'{p}=?{v[1]}')
+                items.append(f'{hx(p)}=?{v[1]}')
             else:
-                items.append(f'{p}={v[0]}.{v[1]}')
+                items.append(f'{hx(p)}={v[0]}.{v[1]}')
         return 'ok ' + ' '.join(items)
 
     def impl(self, c):
@@ -734,10 +824,10 @@ class C22(Prop):
             if not item:
                 continue
             if item.endswith('/'):
-                after[item[:-1]] = 'DIR'
+                after[unhx(item[:-1])] = 'DIR'
             else:
                 p, v = item.split('=')
-                after[p] = v
+                after[unhx(p)] = v
         tok = {p: f'{norm_tok(t)[0]}.{norm_tok(t)[1]}' for p, t in c['files'].items()}
         writes = {'/'.join(d): '/'.join(q) for d, q in ref[1].items()}
         for d, q in sorted(writes.items()):
@@ -795,6 +885,13 @@ class C22(Prop):
         tags = ['kind=copy', 'res=' + (line.split(' ')[1] if line.startswith('err ') else 'ok'), f"xfers={len(c['xfers'])}"]
         if c.get('faults'):
             tags.append('with-transient-faults')
+        allnames = ' '.join(list(c['files']) + list(c['dirs']))
+        if any(ch in allnames for ch in "#?;%&=+ ,:@!$'()*[]") or not allnames.isascii():
+            tags.append('names-from-wide-alphabet')
+        if has_special(allnames):
+            tags.append('names-with-#?;')
+        if any(x.get('url') for x in c['xfers']):
+            tags.append('file-url')
         multipart = any(t[1] > c['part'] for t in c['files'].values())
         for x in c['xfers']:
             tags.append('mode=' + x['mode'])
@@ -808,6 +905,20 @@ class C22(Prop):
         return (json.dumps(c, sort_keys=True) if nfiles else None, tags)
 
     def finding_key(self, c, msg):
+        """the two url_basename / url_join defects are keyed by: the failure disappears when '#', '?', ';' are replaced in all names,
+        and exactly one of the two triggers (in a source string / in a destination string) is present"""
+        if c.get('kind') == 'copy':
+            srcs, dests = xfer_strings(c)
+            t_src, t_dest = any(map(has_special, srcs)), any(map(has_special, dests))
+            if t_src != t_dest:
+                names = {comp for p in list(c['files']) + list(c['dirs']) + srcs + dests for comp in p.split('/') if has_special(comp)}
+                m = {n: n.replace('#', '_').replace('?', '_').replace(';', '_') for n in names}
+                try:
+                    c2 = rename_case(c, m)
+                    if self._usable(c2) and self.oracle(c2, self.impl(c2)) is None:
+                        return K_SRC if t_src else K_DEST
+                except Exception:  # noqa: BLE001
+                    pass
         return json.dumps(c, sort_keys=True)
 
     def shrink(self, c, fails):
